@@ -31,6 +31,7 @@ def must_see(tier):
     m = {}
     for impl in ('c', 'py'):
         m[impl + ':cursor-leaf-unlinked'] = 20
+        m[impl + ':cursor-subtree-emptied'] = 5
         m[impl + ':cursor-leaf-split'] = 20
         m[impl + ':cursor-entry-deleted'] = 20
         m[impl + ':iterator-outlived-clear'] = 10
@@ -262,7 +263,21 @@ def run_history(fam, kind, impl, rng, rec, h):
                 elif q < 0.6 and leaf is not None and len(w.leaf_keys) > 1:
                     aim = 'cursor-leaf-unlinked'
                     ok = True
-                    for kk in list(leaf):
+                    victims = list(leaf)
+                    if w.height >= 3 and rng.random() < .4:
+                        # the whole bottom-level node the cursor's leaf
+                        # hangs under (an interior node goes away)
+                        li_ = w.leaf_keys.index(leaf)
+                        par = tuple(w.leaf_paths[li_][:-1])
+                        sib = [lk for lk, pth in zip(w.leaf_keys,
+                                                     w.leaf_paths)
+                               if tuple(pth[:-1]) == par]
+                        if 0 < len(sib) < len(w.leaf_keys):
+                            victims = [kk for lk in sib for kk in lk]
+                            aim = 'cursor-subtree-emptied'
+                    if rng.random() < .5:
+                        victims.reverse()       # right to left
+                    for kk in victims:
                         ok = ok and ls.step('delitem' if is_mapping
                                             else 'remove', (kk,))
                 elif q < 0.85 and leaf is not None:
